@@ -215,17 +215,33 @@ theorem inter_count {db : DB} (hw : SetWF db) (now : Int) (e : Bytes) : ∀ ks :
     rw [hsplit, length_filter_or _ _ _ hdisj, count_one hw, ih, List.filter_cons]
     split <;> simp <;> omega
 
-theorem nodup_of_distinct : ∀ ks : List Bytes, distinct ks = true → ks.Nodup
-  | [], _ => List.nodup_nil
-  | k :: rest, h => by
-    simp only [distinct, Bool.and_eq_true, Bool.not_eq_true', List.contains_eq_mem,
-      decide_eq_false_iff_not] at h
-    exact List.nodup_cons.2 ⟨h.1, nodup_of_distinct rest h.2⟩
+/-- the rows a key list selects depend only on which names occur in it, not on how often -/
+theorem setKids_dedup (db : DB) (ks : List Bytes) (now : Int) :
+    setKids db (dedup ks) now = setKids db ks now := by
+  unfold setKids
+  congr 1
+  apply List.filter_congr
+  intro r _
+  have : (dedup ks).contains r.key = ks.contains r.key := by
+    rw [Bool.eq_iff_iff]
+    simp only [List.contains_eq_mem, decide_eq_true_eq]
+    exact mem_dedup r.key ks
+  rw [this]
 
-/-- **`sqlInter` computes the intersection**, for any non-empty list of pairwise different keys
-(for a repeated key it does not: D07) -/
+/-- `count(distinct kid)` over the rows selected by ANY key list counts the distinct requested
+names that are sets having the member -/
+theorem inter_count_any {db : DB} (hw : SetWF db) (now : Int) (e : Bytes) (ks : List Bytes) :
+    (db.sets.filter (fun x => (setKids db ks now).contains x.kid && x.elem == e)).length
+      = ((dedup ks).filter (fun k => (mset db k now).contains e)).length := by
+  rw [← inter_count hw now e (dedup ks) (nodup_dedup ks), setKids_dedup]
+
+/-- **`sqlInter` computes the intersection**, for ANY non-empty key list — repeated keys, missing
+keys and keys of another type included: the rows selected are those of the live sets among the
+distinct requested names, and a member is kept iff the number of selected rows carrying it equals
+the number of distinct requested names (`countDistinct(keys)`), i.e. iff every requested name is a
+live set holding it. -/
 theorem setInterRaw_eq {db : DB} (hw : SetWF db) {ks : List Bytes} (hne : ks ≠ [])
-    (hd : ks.Nodup) (now : Int) : setInterRaw db ks now = setInterOf (abs now db) ks := by
+    (now : Int) : setInterRaw db ks now = setInterOf (abs now db) ks := by
   cases ks with
   | nil => exact absurd rfl hne
   | cons k rest =>
@@ -238,15 +254,15 @@ theorem setInterRaw_eq {db : DB} (hw : SetWF db) {ks : List Bytes} (hne : ks ≠
     simp only [List.mem_filter]
     rw [mem_sortBy, mem_dedup, mem_kidElems hw.wf, List.filter_filter]
     have hcnt : (db.sets.filter (fun a => a.elem == e && (setKids db (k :: rest) now).contains a.kid)).length
-        = ((k :: rest).filter (fun k => (mset db k now).contains e)).length := by
-      rw [← inter_count hw now e (k :: rest) hd]
+        = ((dedup (k :: rest)).filter (fun k => (mset db k now).contains e)).length := by
+      rw [← inter_count_any hw now e (k :: rest)]
       congr 1
       apply List.filter_congr
       intro x _
       exact Bool.and_comm _ _
     rw [hcnt]
     simp only [beq_iff_eq, Int.natCast_inj, List.length_filter_eq_length_iff, List.contains_eq_mem,
-      decide_eq_true_eq, setAt_abs hw.wf]
+      decide_eq_true_eq, setAt_abs hw.wf, mem_dedup]
     constructor
     · exact fun h => h.2
     · exact fun h => ⟨⟨k, by simp, h k (by simp)⟩, h⟩
